@@ -1,7 +1,7 @@
 (* C11Theorems.v — the property theorems of C11 and nothing else.  Each is closed by `exact <lemma>`
    and followed by Print Assumptions (audited by ./check on every run). *)
 From V.lib Require Import Base.
-From V.c11 Require Import C11Model C11SegProofs.
+From V.c11 Require Import C11Model C11SegProofs C11SyncProofs C11FragProofs.
 
 (* ---- segmenter (examples/segmenter, text after the fix commit) ----
    For every progressive file (any number of tracks, any tables), every target duration: if the tool
@@ -40,3 +40,92 @@ Theorem C11_last_sample_dropped_refuted : exists (ts : list track) (d : N) (ivss
   ~ Forall2 (fun t ivs => concat (map range ivs) = seqN1 (t_nsamples t)) ts ivss.
 Proof. exact pinned_refuted. Qed.
 Print Assumptions C11_last_sample_dropped_refuted.
+
+(* ---- the reference (first video) track's segments start at the chosen sync samples ----
+   guard: the chosen sync samples after the first have non-zero duration (see the _refuted statement) *)
+Theorem C11_video_starts_sync :
+  forall (ts : list track) (d : N) (rt : track) (syncTs : N) (sps : list sync_point)
+         (ivs : list (N * N)) (stss : list N),
+  first_video ts = Some rt -> t_stss rt = Some stss ->
+  get_segment_starts ts d = Ok (syncTs, sps) ->
+  get_segment_intervals syncTs sps rt = Ok ivs ->
+  nonzero_dur_syncs rt sps = true ->
+  map fst ivs = expected_starts sps /\
+  Forall (fun sp => In (sp_nr sp) stss) sps /\
+  (In 1 stss -> Forall (fun iv => In (fst iv) stss) ivs).
+Proof. exact video_starts_sync. Qed.
+Print Assumptions C11_video_starts_sync.
+
+Example C11_video_starts_sync_example :
+  nonzero_dur_syncs ex_video [mkSP 1 0 40; mkSP 3 80 80; mkSP 5 160 160] = true /\
+  get_segment_starts [ex_video; ex_audio] 80 = Ok (1000, [mkSP 1 0 40; mkSP 3 80 80; mkSP 5 160 160]).
+Proof. vm_compute. split; reflexivity. Qed.
+
+Theorem C11_video_starts_sync_unguarded_refuted :
+  exists ts d rt syncTs sps ivs stss,
+    first_video ts = Some rt /\ t_stss rt = Some stss /\ In 1 stss /\
+    wf_tracks ts = true /\
+    get_segment_starts ts d = Ok (syncTs, sps) /\
+    get_segment_intervals syncTs sps rt = Ok ivs /\
+    ~ Forall (fun iv => In (fst iv) stss) ivs.
+Proof. exact video_starts_sync_unguarded_refuted. Qed.
+Print Assumptions C11_video_starts_sync_unguarded_refuted.
+
+(* ---- examples/resegmenter: for every sample list and every chunk duration the tool accepts ----
+   the output segments' samples concatenate to the input, and every segment after the first is
+   non-empty and starts with a sync sample whose presentation time is >= d * (number of the segment
+   before it), computed as the tool computes it (uint64) *)
+Theorem C11_resegment_conserves : forall (d : N) (ss : list fsample) (segs : list (list fsample)),
+  resegment d ss = Ok segs ->
+  concat segs = ss /\
+  exists first others, segs = first :: others /\ segs_start_ok d 1 others.
+Proof. exact resegment_conserves. Qed.
+Print Assumptions C11_resegment_conserves.
+
+Definition ex_samples : list fsample :=
+  [mkFS 0 10 0%Z 33554432 [1]; mkFS 10 10 5%Z 65536 [2; 2]; mkFS 20 10 0%Z 33554432 [3];
+   mkFS 30 10 0%Z 65536 []; mkFS 40 10 0%Z 33554432 [5]].
+Example C11_resegment_example :
+  option_map (map (map fs_dts)) (match resegment 15 ex_samples with Ok l => Some l | _ => None end)
+  = Some [[0; 10]; [20; 30]; [40]].
+Proof. vm_compute. reflexivity. Qed.
+
+(* ---- MediaSegment.Fragmentify: never fails in the split loop, conserves, no empty fragment ---- *)
+Theorem C11_fragmentify_conserves : forall (duration : N) (frags : list (list fsample)),
+  exists outs, fragmentify duration frags = Ok outs /\ concat outs = concat frags /\
+               Forall (fun f => f <> []) outs.
+Proof. exact fragmentify_conserves. Qed.
+Print Assumptions C11_fragmentify_conserves.
+
+Example C11_fragmentify_example :
+  option_map (map (map fs_dts)) (match fragmentify 20 [firstn 3 ex_samples; skipn 3 ex_samples] with Ok l => Some l | _ => None end)
+  = Some [[0; 10]; [20; 30]; [40]].
+Proof. vm_compute. reflexivity. Qed.
+
+(* ---- combine-segs: multiplexing single-track sample lists into one multi-track fragment ----
+   for distinct new track ids, reading track id back (first traf with that id, truns in order, decode
+   times from tfdt + accumulated durations) returns exactly the list that was put in *)
+Theorem C11_mux_conserves : forall (ids : list N) (inputs : list (list fsample)) (id : N) (ss : list fsample),
+  NoDup ids -> In (id, ss) (combine ids inputs) -> contiguous_list ss = true ->
+  read_track (fo_trafs (combine_tracks ids inputs)) id = Some ss.
+Proof. exact mux_conserves. Qed.
+Print Assumptions C11_mux_conserves.
+
+Example C11_mux_example :
+  contiguous_list ex_samples = true /\
+  read_track (fo_trafs (combine_tracks [1; 2] [ex_samples; firstn 2 ex_samples])) 2 = Some (firstn 2 ex_samples) /\
+  trun_layout (combine_tracks [1; 2] [ex_samples; firstn 2 ex_samples]) = [(1, 0, 5); (2, 1, 2)].
+Proof. vm_compute. repeat split. Qed.
+
+(* the documented limitation of combine-segs (it reads its inputs with trex = nil) as a hypothesis:
+   a trun whose duration/size/flags come from the trun itself or from tfhd defaults reads the same
+   with and without the trex box; without the hypothesis it does not *)
+Theorem C11_mux_reads_without_trex : forall (f : frag_in) (t : trun_in) (sizes : list N) (tx : trex),
+  trun_indep_of_trex f t = true -> read_trun f None t sizes = read_trun f (Some tx) t sizes.
+Proof. exact read_trun_indep. Qed.
+Print Assumptions C11_mux_reads_without_trex.
+
+Theorem C11_mux_needs_trex_refuted :
+  exists f t sizes tx, read_trun f None t sizes <> read_trun f (Some tx) t sizes.
+Proof. exact read_trun_needs_trex_refuted. Qed.
+Print Assumptions C11_mux_needs_trex_refuted.
